@@ -38,7 +38,14 @@ class CapReader:
 
 
 def mkrow(E, R, Qmap, rev, ridx, qidx, tag, su):
-    """row with one segment over reference labels ridx (1-based numbers) and query label numbers qidx"""
+    """row over reference labels ridx (1-based numbers) and query label numbers qidx; nested lists give several segments"""
+    if ridx and isinstance(ridx[0], list):
+        rows = [mkrow(E, R, Qmap, rev, a, b, f"{tag}g{k}", su) for k, (a, b) in enumerate(zip(ridx, qidx))]
+        if any(r is None for r in rows):
+            return None
+        segs = [r.segments[0] for r in rows]
+        return AlignmentResultRow.create(AlignmentSegmentsWithResolvedConflicts(segs), Qmap.moleculeId, R.moleculeId, Qmap.length,
+                                         R.length, rev)
     rp = {p.siteId: p for p in R.getPositionsWithSiteIds()}
     qp = {p.siteId: p for p in Qmap.getPositionsWithSiteIds(rev)}
     if qidx and qidx[0] < 0:        # labels given relative to the end of this map / fragment (its own numbering, whatever its shift)
@@ -77,7 +84,8 @@ def first_pass_menu(KR, KQ, nrefs=1):
          "end-": (0, True, [1, 2, 3], [KQ, KQ - 1, KQ - 2]),               # reverse strand, molecule end on the reference start
          "end+": (0, False, [KR - 2, KR - 1, KR], [KQ - 2, KQ - 1, KQ]),   # aligned part at the molecule end
          "middle-skip+": (0, False, [2, 4], [2, 3]),                       # middle, with skipped labels
-         "start-gap+": (0, False, [1, 2, 4], [1, 2, 4])}                   # label 3 left unpaired on both maps
+         "start-gap+": (0, False, [1, 2, 4], [1, 2, 4]),                   # label 3 left unpaired on both maps
+         "two-segments+": (0, False, [[1, 2], [3, 4]], [[1, 2], [3, 4]])}  # a first-pass record chained from two segments
     if KQ >= 10:
         m["mid-long+"] = (0, False, [3, 4], [5, 6])                        # middle of a long molecule: both flanks become fragments
         m["mid-long-"] = (0, True, [3, 4], [6, 5])
@@ -250,7 +258,7 @@ MULTIPASS_BOUNDS = ("1-2 queries of 6 labels and one query of 10 labels (both fl
 def multipass_configs(tier):
     cfgs = [dict(KR=6, KQ=6, nq=1, nrefs=1, first=["none", "start+", "end-", "end+", "middle-skip+"],
                  second=["none", "continue+", "overlap+", "other-strand", "far-crossing+", "head+", "tail-", "fragment-tail+"]),
-            dict(KR=6, KQ=6, nq=1, nrefs=1, first=["start-gap+"], second=["none", "overlap-fill+", "overlap+"]),
+            dict(KR=6, KQ=6, nq=1, nrefs=1, first=["start-gap+", "two-segments+"], second=["none", "overlap-fill+", "overlap+", "continue+"]),
             dict(KR=6, KQ=6, nq=1, nrefs=2, first=["start+", "end-", "end+"], second=["none", "continue+", "ref2+"])]
     cfgs.append(dict(KR=6, KQ=6, nq=2, nrefs=1, first=["none", "start+", "end-"], second=["none", "continue+", "overlap+"]))
     # long molecule: one or two fragments per query, crossing second-pass records
